@@ -20,3 +20,15 @@ CFG = dict(
      timeout_quick=600, timeout_thorough=3000)
 CFG["rule"] += " Added after independently written breaking changes: Also Subscribe calls with several channels (one shared context) and an injected fake clock (WithClock) a year away from the bubble's time."
 CFG["rule"] += ' Subscriber contexts are plain cancel contexts, contexts of a foreign type that relays cancellation some scheduler yields late (vk.RelayCtx), or busy parents with 300 other children. loop.empty is one of the processor points of the points sweep.'
+CFG["rule"] += (' Bursts (TestBatcherBurst, TestBatcherBurstGrid): 60..300 DISTINCT keys whose quiet interval ends with ONE clock step (all due at one instant, '
+                'or at 2 / 5 / as many instants as keys 1us apart; optionally 5 or half of the keys batched twice = suppressed values; optionally 3 / 51 / 55 single '
+                'events before, so the buffer is already full), executed back to back, with 1..3 prompt subscribers and 1..2 stalled ones (no reader, channel capacity '
+                '0..2) at every position; virtual clock of the bubble or an injected fake clock; GOMAXPROCS default or 1. Each stalled subscriber then either catches up '
+                '(reads everything in chunks of 1 / 7 / 50 / all, settling in between) or leaves in the middle of the burst (after reading 0 / 1 / 7 / 60 values; plain, '
+                'relaying or busy-parent context) while the delivery is blocked on its full buffer; optionally Close is called right after the last leaver\'s cancel. '
+                'Oracle: every subscriber that stayed has each due value exactly once, no suppressed value, nothing > 0.5ms early, in due order; the order among keys due '
+                'at the same instant is taken from the first prompt subscriber and every other subscriber that stayed must have exactly the same sequence (what a leaver '
+                'had received when its context ended is a prefix of it, the rest in the same relative order); once every stalled subscriber has left or caught up the '
+                'settled state has no goroutine parked on the batcher\'s lock (else wedge), the leaver\'s channel is closed, a later Batch is delivered one interval later, '
+                'Close returns, all channels are closed, nothing arrives afterwards. With Close in mid-burst: Close returns, all channels closed, what each subscriber had '
+                'when Close was called agrees position by position, the rest (in flight at Close: may be dropped one by one) in the same relative order.')
